@@ -239,7 +239,69 @@ def body_facts(tree):
         # then the right-hand sides must be translated somewhere before that loop
         if sum(_calls_handle_expr(s) for s in branches["Assign"]) == 0:
             raise Unsupported("_handle_fn_body: tuple assignment never translates the right-hand sides")
-    return tuple_sim, refused
+    return tuple_sim, refused, branch_facts(tree, branches["If"])
+
+
+def _attr_path(n) -> str:
+    return ast.unparse(n)
+
+
+def branch_facts(tree, if_branch):
+    """three facts about the handling of `if` (and IfExp): are branch bodies translated against a copy of ctx.symbols,
+    is `_check_branch` applied to every branch body, are tests translated with `_handle_test`"""
+    calls = [n for s in if_branch for n in ast.walk(s) if isinstance(n, ast.Call)]
+    # 1. context passed to the recursive calls on node.body / node.orelse
+    rec = [c for c in calls if _is_name(c.func, "_handle_fn_body") and len(c.args) == 2
+           and _attr_path(c.args[0]) in ("node.body", "node.orelse")]
+    if {_attr_path(c.args[0]) for c in rec} != {"node.body", "node.orelse"}:
+        raise Unsupported("_handle_fn_body: recursive calls on node.body / node.orelse not found")
+    ctxs = {_attr_path(c.args[1]) for c in rec}
+    if ctxs == {"ctx"}:
+        copies = False
+    elif ctxs == {"ctx.updated(symbols=dict(ctx.symbols))"}:
+        copies = True
+    else:
+        raise Unsupported(f"_handle_fn_body: branch contexts {sorted(ctxs)}")
+    # 2. _check_branch(node.body, remaining_body) and _check_branch(node.orelse, remaining_body)
+    chk = {_attr_path(c.args[0]) for c in calls if _is_name(c.func, "_check_branch") and len(c.args) == 2
+           and _attr_path(c.args[1]) == "remaining_body"}
+    if chk == {"node.body", "node.orelse"}:
+        checked = True
+        cb = _fn(tree, "_check_branch")
+        ar = _fn(tree, "_always_returns")
+        if not any(isinstance(n, ast.Raise) for n in ast.walk(cb)) or not any(
+                isinstance(n, ast.Call) and _is_name(n.func, "_always_returns") for n in ast.walk(cb)):
+            raise Unsupported("_check_branch: shape")
+        if "node.orelse" not in ast.unparse(ar) or "ast.Return" not in ast.unparse(ar):
+            raise Unsupported("_always_returns: shape")
+    elif not chk:
+        checked = False
+    else:
+        raise Unsupported(f"_handle_fn_body: _check_branch applied to {sorted(chk)} only")
+    # 3. tests
+    def test_fn(stmts, what):
+        for s in stmts:
+            for n in ast.walk(s):
+                if (isinstance(n, ast.Assign) and _is_name(n.targets[0], "condition") and isinstance(n.value, ast.Call)
+                        and len(n.value.args) == 2 and _attr_path(n.value.args[0]) == "node.test"):
+                    f = n.value.func
+                    if _is_name(f, "_handle_expr") or _is_name(f, "_handle_test"):
+                        return f.id
+        raise Unsupported(f"{what}: translation of node.test not found")
+
+    t1 = test_fn(if_branch, "_handle_fn_body")
+    ifexp = [n for n in ast.walk(_fn(tree, "_handle_expr")) if isinstance(n, ast.If) and "ast.IfExp" in ast.unparse(n.test)]
+    if len(ifexp) != 1:
+        raise Unsupported("_handle_expr: IfExp branch not found")
+    t2 = test_fn(ifexp[0].body, "_handle_expr/IfExp")
+    if t1 != t2:
+        raise Unsupported("if and IfExp tests are translated differently")
+    boolean = t1 == "_handle_test"
+    if boolean:
+        ht = ast.unparse(_fn(tree, "_handle_test"))
+        if "raise" not in ht or "not isinstance(condition, sympy.Symbol)" not in ht or "Boolean" not in ht:
+            raise Unsupported("_handle_test: shape")
+    return copies, checked, boolean
 
 
 def lstr(s: str) -> str:
@@ -253,7 +315,7 @@ def render(repo: Path) -> str:
     fns = _dict(tree, "KNOWN_FNS")
     consts = _dict(tree, "KNOWN_CONSTANTS")
     sim = subst_simultaneous(tree)
-    tup, refused = body_facts(tree)
+    tup, refused, (copies, checked, boolean) = body_facts(tree)
     b = lambda x: "true" if x else "false"  # noqa: E731
     lines = [
         "-- GENERATED by /verif/translate/c06.py from src/mxlpy/meta/source_tools.py; do not edit",
@@ -280,6 +342,9 @@ def render(repo: Path) -> str:
         f"  substSimultaneous := {b(sim)}",
         f"  tupleSimultaneous := {b(tup)}",
         f"  unknownStmtRefused := {b(refused)}",
+        f"  branchCopies := {b(copies)}",
+        f"  fallThroughChecked := {b(checked)}",
+        f"  testsBoolean := {b(boolean)}",
         "",
         "end Mxl.C06.Generated",
         "",
